@@ -165,7 +165,8 @@ async fn h1_one(ctx: &Ctx, sni: Option<String>, r: &Req, c: &Canaries) -> (u128,
     let (mut client, server) = tokio::io::duplex(1 << 16);
     let ctx2 = ctx.clone();
     let task = tokio::spawn(async move {
-        let _ = session::run(&ctx2, session::Channel::Tunnel, false, server, "198.51.100.7:40000".parse().unwrap(), "localhost".into(), sni).await;
+        let name = sni.as_ref().map_or("localhost".to_string(), |c| format!("{}.localhost", c));
+        let _ = session::run(&ctx2, session::Channel::Tunnel, false, server, "198.51.100.7:40000".parse().unwrap(), name, sni).await;
     });
     let mut head = vec![];
     head.extend_from_slice(method_of(r.kind).as_bytes());
@@ -306,7 +307,8 @@ async fn h2_session(ctx: &Ctx, sni: Option<String>, reqs: &[Req], c: &Canaries) 
     let (client, server) = tokio::io::duplex(1 << 16);
     let ctx2 = ctx.clone();
     let task = tokio::spawn(async move {
-        let _ = session::run(&ctx2, session::Channel::Tunnel, true, server, "198.51.100.7:40000".parse().unwrap(), "localhost".into(), sni).await;
+        let name = sni.as_ref().map_or("localhost".to_string(), |c| format!("{}.localhost", c));
+        let _ = session::run(&ctx2, session::Channel::Tunnel, true, server, "198.51.100.7:40000".parse().unwrap(), name, sni).await;
     });
     let mut out = vec![];
     let hs = tokio::time::timeout(Duration::from_secs(3), h2::client::handshake(client)).await;
